@@ -185,6 +185,8 @@ def twoport_objects(ctx, quick, rng, only_class=None):
     # parameter matrices: two seeds, every conversion
     seeds = [('AMatrix(((2+s,3),(s,5)))', lambda: tp.AMatrix(((2 + s, 3), (s, 5)))),
              ('ZMatrix(((3+1/s,1/s),(1/s,2+1/s)))', lambda: tp.ZMatrix(((3 + 1 / s, 1 / s), (1 / s, 2 + 1 / s))))]
+    if quick and not only_class:
+        seeds = seeds[:1]
     for nm, mk in seeds:
         try:
             m = mk()
@@ -218,13 +220,12 @@ def twoport_objects(ctx, quick, rng, only_class=None):
         else:
             chk.count('twoport objects', 'class-not-buildable')
             chk.coverage.setdefault('twoport_classes_not_buildable', []).append(n)
-    core = ('Ladder', 'LSection', 'TSection', 'PiSection', 'Chain', 'TPB', 'TPZ', 'Series', 'Shunt', 'Par2', 'Ser2',
-            'IdealTransformer', 'VoltageAmplifier')
+    core = ('Ladder', 'LSection', 'TSection', 'PiSection', 'Chain', 'TPB', 'Series', 'Shunt', 'Par2', 'IdealTransformer')
     slow = ('GeneralTransmissionLine', 'GeneralTxLine', 'TL', 'LosslessTransmissionLine', 'LosslessTxLine', 'TLlossless',
             'TransmissionLine', 'TxLine')
     if quick and not only_class:
         rest = [b for b in built if b[0] not in core and b[0] not in slow]
-        pick = [b for b in built if b[0] in core] + rng.sample(rest, min(5, len(rest)))
+        pick = [b for b in built if b[0] in core] + rng.sample(rest, min(4, len(rest)))
     else:
         pick = built
     out.extend(pick)
@@ -255,10 +256,18 @@ def twoport_outputs(ctx, info_tp, quick, rng, replay_input=None):
     for cname, recipe, o in objs:
         is_net = not cname.endswith('Matrix')
         todo = [(a, 'table') for a in table_attrs]
+        if quick and not only_attr and cname in ('SMatrix', 'TMatrix'):
+            todo = rng.sample(todo, 5)          # every conversion from wave parameters is slow
         if is_net:
             todo += [(a, 'doc') for a in sorted(doc_attrs)] + [(a, 'signal') for a in sorted(signal_attrs)] + \
                     [(a, 'recip') for a in sorted(recip_attrs)]
-        todo += [(x + ij, 'entry') for x in TP_ENTRY_REPS for ij in ('11', '12', '21', '22')]
+        if not quick or only_attr:
+            ereps = TP_ENTRY_REPS
+        elif is_net:
+            ereps = [rng.choice(['A', 'B', 'G', 'H', 'Y', 'Z'])]
+        else:
+            ereps = sorted(set([cname[0], 'Y', 'Z']))
+        todo += [(x + ij, 'entry') for x in ereps for ij in ('11', '12', '21', '22')]
         for attr, kind in todo:
             if only_attr and attr != only_attr:
                 continue
@@ -316,7 +325,7 @@ def netlists():
     for n, kinds in ((3, 'RC'), (4, 'RC'), (3, 'LC'), (3, 'RR')):
         net, out = ladder_net(n, kinds)
         nets['ladder-%d%s' % (2 * n, kinds)] = (net, 1, out, 'ladder with %d components: ladder shortcut' % (2 * n))
-    net, out = ladder_net(3, 'RC', 'V1 1 0 step 5')
+    net, out = ladder_net(3, 'RC', 'I1 4 0 step 2')
     nets['ladder-6RC-driven'] = (net, 1, out, 'driven ladder (sources are killed first): ladder shortcut')
     nets['bridge-7'] = ('R1 1 2 2\nR2 1 3 3\nR3 2 3 1\nR4 2 0 4\nC1 3 0 1\nR5 3 4 2\nR6 4 0 1', 1, 4,
                         'six or more components, no ladder topology: test-source route')
@@ -333,13 +342,22 @@ def netlists():
 NET_METHODS = ['transfer', 'voltage_gain', 'current_gain', 'transimpedance', 'transadmittance']
 
 
-def conversions(x):
-    """the forms a voltage / current result is offered in"""
+def conversions(x, heavy):
+    """the forms a voltage / current result is offered in.  `heavy`: third-order networks, whose time-domain forms
+    need a slow inverse Laplace transform: only the transform-domain forms are taken"""
     out = [('native', lambda: x)]
-    for nm in ('time', 'laplace', 'phasor', 'fourier'):
+    names = ['laplace'] if heavy else ['time', 'laplace']
+    is_ac = False
+    try:
+        is_ac = bool(x.is_ac)
+    except Exception:   # noqa
+        pass
+    if is_ac:
+        names.append('phasor')       # "Return phasor if have a single AC component"
+    for nm in names:
         if hasattr(x, nm):
             out.append((nm + '()', lambda nm=nm: getattr(x, nm)()))
-    for nm in ('dc', 'ac', 'transient', 's', 'n'):
+    for nm in (('dc', 'ac', 'n') if heavy else ('dc', 'ac', 'transient', 's', 'n')):
         if hasattr(type(x), nm):
             out.append(('.' + nm, lambda nm=nm: getattr(x, nm)))
     return out
@@ -352,15 +370,31 @@ def circuit_outputs(ctx, quick, rng, replay_input=None):
     only = replay_input.get('net') if replay_input else None
     only_q = replay_input.get('query') if replay_input else None
     routes = {}
+    timing = {}
+    import time as _time
+    quick_signal_nets = ('divider-dc', 'rc-step', 'rl-ac', 'mixed', 'noise', 'isrc', 'ladder-6RC-driven')
+    quick_skip = ('ladder-8RC', 'ladder-6RR', 'small-5', 'rlc-s')
     for name, (net, nin, nout, why) in nets.items():
         if only and name != only:
             continue
+        if quick and not only and name in quick_skip:
+            continue
+        t_net = _time.time()
         try:
             cct = lcapy.Circuit(net)
         except Exception:   # noqa
             chk.count('circuit', 'netlist-not-built')
             continue
         has_src = any(l.split()[0][0] in 'VI' for l in net.split('\n'))
+        heavy = len(net.split('\n')) >= 6
+        memo = {}
+
+        def once(k, f):
+            if k not in memo:
+                memo[k] = f()
+            return memo[k]
+        th = lambda: once('th', lambda: cct.thevenin(nout, 0))    # noqa
+        no = lambda: once('no', lambda: cct.norton(nout, 0))      # noqa
         try:
             route = 'ladder' if cct._ladder(nin, 0, nout, 0) is not None else 'test-source'
         except Exception:   # noqa
@@ -372,31 +406,32 @@ def circuit_outputs(ctx, quick, rng, replay_input=None):
             items.append(('%s(%d,0,%d,0)' % (m, nin, nout), ('net', m), lambda m=m: getattr(cct, m)(nin, 0, nout, 0)))
         items.append(('impedance(%d,0)' % nout, ('ratio', 'V1', 'I1'), lambda: cct.impedance(nout, 0)))
         items.append(('admittance(%d,0)' % nout, ('ratio', 'I1', 'V1'), lambda: cct.admittance(nout, 0)))
-        items.append(('thevenin(%d,0).Z' % nout, ('ratio', 'V1', 'I1'), lambda: cct.thevenin(nout, 0).Z))
-        items.append(('norton(%d,0).Y' % nout, ('ratio', 'I1', 'V1'), lambda: cct.norton(nout, 0).Y))
-        items.append(('thevenin(%d,0).Y' % nout, ('ratio', 'I1', 'V1'), lambda: cct.thevenin(nout, 0).Y))
+        items.append(('thevenin(%d,0).Z' % nout, ('ratio', 'V1', 'I1'), lambda: th().Z))
+        items.append(('norton(%d,0).Y' % nout, ('ratio', 'I1', 'V1'), lambda: no().Y))
+        items.append(('thevenin(%d,0).Y' % nout, ('ratio', 'I1', 'V1'), lambda: th().Y))
         items.append(('R1.Z', ('ratio', 'V1', 'I1'), lambda: cct.R1.Z if hasattr(cct, 'R1') else cct.L1.Z))
         items.append(('R1.Y', ('ratio', 'I1', 'V1'), lambda: cct.R1.Y if hasattr(cct, 'R1') else cct.L1.Y))
         items.append(('oneport(%d,0).Z' % nout, ('ratio', 'V1', 'I1'), lambda: cct.oneport(nout, 0).Z))
         if has_src:
             sig = [('Voc(%d,0)' % nout, 'voltage', lambda: cct.Voc(nout, 0)),
                    ('Isc(%d,0)' % nout, 'current', lambda: cct.Isc(nout, 0)),
-                   ('thevenin(%d,0).Voc' % nout, 'voltage', lambda: cct.thevenin(nout, 0).Voc),
-                   ('norton(%d,0).Isc' % nout, 'current', lambda: cct.norton(nout, 0).Isc),
+                   ('thevenin(%d,0).Voc' % nout, 'voltage', lambda: th().Voc),
+                   ('norton(%d,0).Isc' % nout, 'current', lambda: no().Isc),
                    ('[%d].V' % nout, 'voltage', lambda: cct[nout].V),
                    ('[%d].V' % nin, 'voltage', lambda: cct[nin].V)]
             first = net.split('\n')[1].split()[0]
             sig.append(('%s.I' % first, 'current', lambda: getattr(cct, first).I))
             sig.append(('%s.V' % first, 'voltage', lambda: getattr(cct, first).V))
-            sig.append(('%s.v' % first, 'voltage', lambda: getattr(cct, first).v))
-            sig.append(('%s.i' % first, 'current', lambda: getattr(cct, first).i))
+            if not heavy:
+                sig.append(('%s.v' % first, 'voltage', lambda: getattr(cct, first).v))
+                sig.append(('%s.i' % first, 'current', lambda: getattr(cct, first).i))
             for label, want, f in sig:
                 items.append((label, ('signal', want), f))
         for label, kind, f in items:
             if only_q and not only_q.startswith(label):
                 continue
             try:
-                with common.time_limit(30):
+                with common.time_limit(12):
                     r = f()
             except common.TimeLimit:
                 chk.count('circuit', 'time-limit')
@@ -418,11 +453,11 @@ def circuit_outputs(ctx, quick, rng, replay_input=None):
                 ctx.judge_ratio({'kind': 'circuit-output', 'output': label.split('(')[0].split('.')[-1], 'route': 'driving-point'},
                                 inp, r, kind[1], kind[2], strict=True)
             else:
-                for cn, cf in conversions(r):
+                for cn, cf in conversions(r, heavy):
                     if only_q and only_q != label + ' ' + cn:
                         continue
                     try:
-                        with common.time_limit(30):
+                        with common.time_limit(12):
                             y = cf()
                     except common.TimeLimit:
                         chk.count('circuit', 'time-limit')
@@ -432,8 +467,17 @@ def circuit_outputs(ctx, quick, rng, replay_input=None):
                         continue
                     if y is None or isinstance(y, (int, float)):
                         continue
+                    if isinstance(y, dict) and not hasattr(y, 'quantity'):
+                        # .ac: dictionary of phasors keyed by angular frequency
+                        for kk, yy in y.items():
+                            chk.count('operator', 'circuit-signal')
+                            ctx.judge_signal({'kind': 'circuit-output', 'output': kind[1], 'form': cn},
+                                             dict(inp, query=label + ' ' + cn), yy, kind[1])
+                        continue
                     chk.count('operator', 'circuit-signal')
                     chk.case(('circuit', name, label, cn), True)
                     ctx.judge_signal({'kind': 'circuit-output', 'output': kind[1], 'form': cn},
                                      dict(inp, query=label + ' ' + cn), y, kind[1])
+        timing[name] = round(_time.time() - t_net, 1)
     chk.coverage['circuit_routes'] = routes
+    chk.coverage['circuit_seconds_per_netlist'] = timing
